@@ -80,9 +80,9 @@ class Harness:
             cap = {}
             real = self.cr.mixed_rank_graph
 
-            def hooked(df, a, p, pb):
-                cap['cols'] = list(df.columns)
-                return real(df, a, p, pb)
+            def hooked(input_dataframe, *a, **k):
+                cap['cols'] = list(input_dataframe.columns)
+                return real(input_dataframe, *a, **k)
             self.cr.mixed_rank_graph = hooked
             try:
                 rows = frame.values.tolist()
@@ -301,7 +301,7 @@ def shard_prior_and_large(sh):
     cr = h.cr
     rng, nprng = sh.rng('prior'), sh.nprng('prior')
     real_scorer = cr.get_importances_estimate_pairwise
-    cr.get_importances_estimate_pairwise = lambda combination, ref, args, tmp_df: (combination[0], combination[1], 0.5)
+    cr.get_importances_estimate_pairwise = lambda combination, *a_, **k_: (combination[0], combination[1], 0.5)
     try:
         for t in range(30 if sh.tier == 'quick' else 120):
             k = rng.randint(3, 9)
